@@ -1007,7 +1007,7 @@ func (g *Gen) havocWrites(hst, st *State, writes []writeRec, base string, preTop
 		if key == "H_Int_uint8" && !whole {
 			var conds []string
 			for _, a := range addrs {
-				conds = append(conds, "(or (= (elemArr "+a+") Nil) (not (= (sarr s) (elemArr "+a+"))))")
+				conds = append(conds, "(or (not ((_ is Elem) "+a+")) (not (= (sarr s) (ebase "+a+"))))")
 			}
 			for _, p := range pats {
 				conds = append(conds, "(not (= (sarr s) "+p+"))")
